@@ -22,6 +22,7 @@ Inductive exn :=
 | XPGP (k : pgpfail)
 | XOS (e : errno)
 | XBadCompressed            (* gzip.BadGzipFile / lzma.LZMAError / errno-less OSError of bz2 *)
+| XCodecInternal            (* zlib.error / EOFError from a damaged stream: not a gemato or OS exception *)
 | XInternal (k : ikind)
 | XOutOfFuel                (* model only *)
 | XOracleMiss (q : list bytes).   (* model only: the harness must extend an oracle table *)
